@@ -41,15 +41,16 @@ func NewFileStream(path string) (*FileStream, error) {
 func (f *FileStream) ReadAll() ([]rune, error) {
 	var result []rune
 	for {
-		res, err := f.read(defaultReadBlock)
+		res, isEnd, err := f.read(defaultReadBlock)
 		if err != nil {
 			return []rune{}, err
 		}
+		result = append(result, res...)
 
-		if len(res) == 0 {
+		// NOTE: a block may yield no chars (e.g. a BOM only) before the end of file
+		if isEnd {
 			break
 		}
-		result = append(result, res...)
 	}
 
 	return result, nil
@@ -57,7 +58,8 @@ func (f *FileStream) ReadAll() ([]rune, error) {
 
 // Read - read some chars
 func (f *FileStream) Read(n int) ([]rune, error) {
-	return f.read(n)
+	data, _, err := f.read(n)
+	return data, err
 }
 
 // GetPath -
@@ -65,19 +67,20 @@ func (f *FileStream) GetPath() string {
 	return f.path
 }
 
-func (f *FileStream) read(n int) ([]rune, error) {
-	data, remains, err := readRune(f.reader, f.encBuffer, n)
+func (f *FileStream) read(n int) ([]rune, bool, error) {
+	data, remains, isEnd, err := readRune(f.reader, f.encBuffer, n)
 	if err != nil {
-		return []rune{}, err
+		return []rune{}, isEnd, err
 	}
 	f.encBuffer = remains
 
-	if !f.hasRead {
+	// (the first char may arrive later than the first block when blocks are tiny)
+	if !f.hasRead && len(data) > 0 {
 		f.hasRead = true
 		// detect BOM, if BOM on the first char, then remove it directly.
-		if len(data) > 0 && data[0] == BOM {
+		if data[0] == BOM {
 			data = data[1:]
 		}
 	}
-	return data, nil
+	return data, isEnd, nil
 }
